@@ -364,7 +364,7 @@ def truthy_scalar(v):
     if k == 'str':
         return mk(z3.Length(v.t) > 0, 'bool')
     if k == 'atom':
-        raise Unsupported('truth value of an abstract atom (may be the empty string)')
+        return True          # atoms stand for non-empty identifiers (they reify to '@atom<n>')
     u = v.t
     return mk(z3.Or(z3.And(V.is_b(u), V.bv(u)), z3.And(V.is_i(u), V.iv(u) != 0), z3.And(V.is_f(u), V.fv(u) != 0),
                     z3.And(V.is_s(u), z3.Length(V.sv(u)) > 0), V.is_a(u), V.is_l(u)), 'bool')
